@@ -1,4 +1,48 @@
 (* C05 — Hash-tree-roots agree across struct form, tree-view form and the SSZ spec.
-   Statements only; proofs live in Ssz/TreeView.v and Ssz/SszProofs.v. *)
+   Statements only; proofs live in Ssz/TreeView.v.  Everything is parametric in the hash function H and holds
+   for ALL trees, positions, chunk lists and operation sequences. *)
 From Coq Require Import NArith List.
-From V Require Import Ssz.SszCore.
+From V Require Import Ssz.SszCore Ssz.TreeView.
+Import ListNotations.
+
+Section C05.
+  Variable H : bytes -> bytes.
+  Variable zero_hash : nat -> bytes.
+  Hypothesis zero_hash_0 : zero_hash 0 = zero_chunk.
+  Hypothesis zero_hash_S : forall d, zero_hash (S d) = H (zero_hash d ++ zero_hash d).
+
+  (* the root of the (cached) tree built over a chunk list is the specification's merkleization with zero padding *)
+  Theorem C05_tree_root_is_merkleization : forall d cs, (length cs <= Nat.pow 2 d)%nat ->
+      root (build H d (map Leaf cs)) = merkle_tree H zero_hash d cs.
+  Proof. exact (build_root_merkle H zero_hash zero_hash_0 zero_hash_S). Qed.
+
+  (* a write by generalized index keeps every cached root equal to the hash of its children *)
+  Theorem C05_set_keeps_cache : forall n p x n',
+      cache_ok H n -> cache_ok H x -> set H n p x = Some n' -> cache_ok H n' /\ root n' = compute H n'.
+  Proof.
+    intros n p x n' Hn Hx Hs. split; [exact (set_cache_ok H n p x n' Hn Hx Hs) | exact (set_root_compute H n p x n' Hn Hx Hs)].
+  Qed.
+
+  (* cached subtree hashes are never stale: after ANY sequence of writes (setters, appends, resets and whole-subtree
+     replacements are all [OSet] of some subtree at some position) and copies on a store of views, the root every
+     view reports is the root of its content recomputed from scratch *)
+  Theorem C05_cache_never_stale : forall ops s s',
+      Forall (cache_ok H) s -> Forall (op_ok H) ops -> run H s ops = Some s' ->
+      forall t, In t s' -> root t = compute H t.
+  Proof. intros ops s s' Hs Ho Hr. exact (proj2 (cache_inv_preserved H ops s s' Hs Ho Hr)). Qed.
+
+  (* trees built from values satisfy the invariant to start with *)
+  Theorem C05_built_tree_ok : forall d ns, Forall (cache_ok H) ns -> cache_ok H (build H d ns).
+  Proof. exact (build_cache_ok H zero_hash zero_hash_0 zero_hash_S). Qed.
+End C05.
+Print Assumptions C05_tree_root_is_merkleization.
+Print Assumptions C05_set_keeps_cache.
+Print Assumptions C05_cache_never_stale.
+Print Assumptions C05_built_tree_ok.
+
+(* non-vacuity: a concrete tree, a write and a copy *)
+Example C05_nonvacuous :
+  let H := fun b : bytes => firstn 32 b in
+  let t := build H 2 (map Leaf [[1%N]; [2%N]; [3%N]]) in
+  cache_ok H t /\ exists s', run H [t] [OCopy 0; OSet 1 [true; false] (Leaf [9%N])] = Some s' /\ length s' = 2%nat.
+Proof. simpl. repeat split; eauto. Qed.
